@@ -176,6 +176,25 @@ def clause_multienv(cases, ctx: Ctx):
     return out
 
 
+def clause_dtypes(cases, ctx: Ctx):
+    """case: {r, v, last, dones, gamma, lam, how}: the hyper-parameters arrive as Python ints / numpy integers / 0-d integer arrays
+    (gamma = 1 and lambda in {0, 1} are legal integers): the result must be the one for the same numbers given as floats."""
+    out = []
+    for ci, c in enumerate(cases):
+        T = len(c["r"])
+        buf = RolloutBuffer(observations=jnp.zeros(T), actions=jnp.zeros(T), rewards=jnp.asarray(c["r"], float), dones=jnp.asarray(c["dones"], bool),
+                            log_probs=jnp.zeros(T), values=jnp.asarray(c["v"], float), states=CounterState(jnp.zeros(T, dtype=int)))
+        conv = {"python-int": int, "numpy-int64": np.int64, "jax-int-array": lambda x: jnp.asarray(x, dtype=int)}[c["how"]]
+        g = conv(c["gamma"]) if float(c["gamma"]).is_integer() else c["gamma"]
+        l = conv(c["lam"]) if float(c["lam"]).is_integer() else c["lam"]
+        got = buf.compute_returns_and_advantages(jnp.asarray(c["last"], float), l, g)
+        e_adv, e_ret = refs.gae_np(np.asarray([c["r"]]), np.asarray([c["v"]]), np.asarray([c["dones"]]), np.asarray([c["last"]]), float(c["gamma"]), float(c["lam"]))
+        ctx.guard("integer-typed-hyperparameters")
+        if not (refs.close(np.asarray(got.advantages), e_adv[0], 2e-5).all() and refs.close(np.asarray(got.returns), e_ret[0], 2e-5).all()):
+            out.append((ci, f"C03/dtypes/{c['how']}", f"gamma={c['gamma']!r} lambda={c['lam']!r} passed as {c['how']} where integral: advantages {np.asarray(got.advantages).tolist()}, reference {e_adv[0].tolist()} (dones {c['dones']})"))
+    return out
+
+
 def clause_streams(cases, ctx: Ctx):
     """The same real iterations judged against the reference collector, whose episode ends come from the MDP tables and the clocks -
     NOT from the buffer's own `dones` (clause multienv re-derives GAE from the stored flags, so a collector that stores wrong flags
@@ -187,7 +206,7 @@ def clause_streams(cases, ctx: Ctx):
     return [(i, s.replace("C04/", "C03/stream/"), m) for (i, s, m) in clause_collect(cases, ctx) if any(k in s for k in keep)]
 
 
-CLAUSES = {"recurrence": clause_recurrence, "noninterference": clause_noninterference, "multienv": clause_multienv, "streams": clause_streams}
+CLAUSES = {"recurrence": clause_recurrence, "noninterference": clause_noninterference, "multienv": clause_multienv, "streams": clause_streams, "dtypes": clause_dtypes}
 
 
 def explore(ctx: Ctx):
@@ -229,6 +248,11 @@ def explore(ctx: Ctx):
             for sc in scripts_full("discrete", 2, 4):
                 for k in keys:
                     multi.append(dict(tab, algo="PPO", script=sc, num_envs=E, num_steps=4, key=k, gamma=0.5, lam=0.25))
+    vec = basis(3)[-1]
+    dt = [dict(r=vec[:3].tolist(), v=vec[3:6].tolist(), last=float(vec[6]), dones=list(d), gamma=g, lam=l, how=h)
+          for d in itertools.product([False, True], repeat=3) for (g, l) in ((1, 0.5), (1, 0.9), (0.9, 1), (1, 1), (0.5, 0), (0, 0.5))
+          for h in ("python-int", "numpy-int64", "jax-int-array")]
+    ctx.run("dtypes", dt)
     ctx.run("multienv", multi)
     # + a policy whose value depends on its own state (V(obs, c) = V[obs] + 3c): the bootstrap value V_T must come from the policy
     #   state carried out of the rollout, not from one recorded inside it
